@@ -166,4 +166,29 @@ def addToObject (s : Nat → Bool) (constKey : Bool) (key : Bytes) : Item → It
       ⟨true, .mk ok orf oc ovi ovd ovs onm (okids ++ [.mk k r constKey vi vd vs (some key) kids]), none,
        ⟨a1.next, a1.live - freed⟩⟩
 
+/-! ### replacing a member -/
+
+def Item.withKids : Item → List Item → Item
+  | .mk k r c vi vd vs nm _, ks => .mk k r c vi vd vs nm ks
+
+/-- `replace_item_in_object(object, key, replacement, cs)`: the replacement's previous name is released unless
+    constant, the key is copied, the first member that answers to the key is replaced IN PLACE and deleted.
+    `checked = false` is cJSON 1.7.13 as shipped: the result of the key copy is not inspected, so after a failed
+    copy the replacement goes in WITHOUT a name.  `checked = true` is the code as repaired: the call fails, nothing
+    in the object changes and the replacement stays with the caller. -/
+def replaceInObject (s : Nat → Bool) (checked cs : Bool) (key : Bytes) (obj : Item) : Item → A → AddRes
+  | .mk k r c vi vd vs nm kids, a =>
+    let a0 : A := ⟨a.next, a.live - b2n (!c && nm.isSome)⟩
+    match optAlloc s true a0 with
+    | (okc, a1) =>
+      let rep : Item := .mk k r false vi vd vs (if okc then some key else none) kids
+      if checked && !okc then ⟨false, obj, some (.mk k r c vi vd vs none kids), a1⟩   -- returns before the constant bit is cleared
+      else
+        match getItem cs key obj.kids with
+        | none => ⟨false, obj, some rep, a1⟩
+        | some j =>
+          match obj.kids[j]? with
+          | none => ⟨false, obj, some rep, a1⟩
+          | some old => ⟨true, obj.withKids (obj.kids.set j rep), none, ⟨a1.next, a1.live - delFrees old⟩⟩
+
 end Cjet.Cjson.TreeOps
